@@ -388,12 +388,67 @@ def verify_node_evaluate(run):
         run.add(static(f"{fq}/writes_nothing[{mode}]", not ex.writes, f"heap fields written: {sorted(ex.writes)}", fn=fq))
 
 
+# ------------------------------------------------------------------------------------------------ Function.load / configure: always the CURRENT formula
+def verify_function_load(run):
+    """load() parses the current formula unconditionally (a previously loaded tree is replaced); configure(text) stores the text and loads it -
+    so an ill-formed formula is rejected whenever it is loaded, and a re-configured term evaluates its new formula"""
+    from pyvc.reprexec import ReprExec, RefO, SStr, ObjRef, NONE_REF
+    from pyvc.heap import Str, strc
+    from pyvc.numexec import Obj, Path
+    src = run.src
+    parse_of = z3.Function("parse_of", Str, ObjRef)          # the tree Function.parse returns for a text (when it accepts it)
+    parse_ok = z3.Function("parse_accepts", Str, z3.BoolSort())
+
+    class LoadExec(ReprExec):
+        def ev_Call(s, p, e):
+            t = ast.unparse(e.func)
+            if t == "self.parse" and len(e.args) == 1:
+                v = s.ev(p, e.args[0])
+                txt = v.t if isinstance(v, SStr) else strc(v) if isinstance(v, str) else None
+                if txt is None:
+                    raise Unsupported("parse of a non-text")
+                q = Path(p.env, list(p.pc)); q.pc.append(z3.Not(parse_ok(txt))); s.raised.append((q, "SyntaxError"))
+                p.pc += [parse_ok(txt), parse_of(txt) != NONE_REF]
+                return RefO(parse_of(txt))
+            if t == "bool" and len(e.args) == 1:
+                from pyvc.numexec import Bool
+                return Bool(s.truth(s.ev(p, e.args[0]), e), False, True)
+            return super().ev_Call(p, e)
+    for meth in ("load", "configure"):
+        fq = f"term.Function.{meth}"
+        fn = src.func("term", f"Function.{meth}")
+        run.under_contract("term", f"Function.{meth}", fn)
+        root0, formula0, param = RefO(z3.Const("root", ObjRef)), SStr(z3.Const("formula", Str)), SStr(z3.Const("parameters", Str))
+        ex = LoadExec(src, "term", xr.Ax(), selfobj=Obj("Function", {"root": root0, "formula": formula0}))
+        ex.target_cls, ex.cur_cls = "Function", ["Function"]
+        env = {"self": ex.selfobj}
+        if meth == "configure":
+            env["parameters"] = param
+        try:
+            outs = ex.run(fn, env)
+        except Exception as ex_:  # noqa
+            run.add(undecided(f"{fq}/subset", f"outside the verified subset: {type(ex_).__name__}: {ex_}", fn=fq, meta={"replay": RP_FORM})); continue
+        text = param.t if meth == "configure" else formula0.t
+        n_ret = 0
+        for k, (kind, v, q) in enumerate(outs):
+            if kind != "return":
+                continue
+            n_ret += 1
+            F = q.env.get("__self_fields__", ex.selfobj.fields)
+            rt, fm = F.get("root"), F.get("formula")
+            goal = z3.And(rt.r == parse_of(text) if isinstance(rt, RefO) else z3.BoolVal(False), parse_ok(text), (fm.t == text) if isinstance(fm, SStr) else z3.BoolVal(False))
+            run.add(Obl(f"{fq}/ensures.the_tree_is_the_parse_of_the_current_text[path{k}]", q.pc, goal, fn=fq, meta={"replay": RP_FORM}))
+        for j, (q, exc) in enumerate(ex.raised):
+            run.add(Obl(f"{fq}/raises.SyntaxError_iff_the_text_is_rejected[raise{j}]", q.pc, z3.And(z3.BoolVal(exc == "SyntaxError"), z3.Not(parse_ok(text))), fn=fq, meta={"replay": RP_FORM}))
+        run.add(static(f"{fq}/returns", n_ret >= 1, f"{n_ret} returning path(s), {len(ex.raised)} raising", fn=fq))
+
+
 def build(run):
     run.assume("A-REAL", "A-NP", "A-PY", "A-LIFT", "A-STR", "A-MSG", "A-LOG")
     from props import C16
     plan = [("factory.FunctionFactory._create_operators", verify_table), ("factory.FunctionFactory._create_functions", verify_functions),
             ("operation.Op.relational", verify_relational), ("term.Function.infix_to_postfix", C16.verify_infix_to_postfix),
-            ("term.Function.parse", verify_function_parse), ("term.Function.Node.evaluate", verify_node_evaluate)]
+            ("term.Function.parse", verify_function_parse), ("term.Function.Node.evaluate", verify_node_evaluate), ("term.Function.load", verify_function_load)]
     for fq, f in plan:
         try:
             f(run)
